@@ -44,7 +44,8 @@ Proof. exact parse_build_mbr. Qed.
 Print Assumptions C12_parse_build_mbr.
 
 (* every well-formed GPT layout (entry size 128*2^k, any number of entries, any used
-   slots, table anywhere from LBA 2, any sector 0), every sector size 512k: the
+   slots, table anywhere from LBA 2, ANY content of the first 512 bytes -- zeros, a
+   protective or a hybrid MBR), every sector size 512k: the
    mapping lists exactly the used slot numbers, each gives exactly the window
    [first*S, (last+1)*S) with its type GUID and label, others give KeyError *)
 Theorem C12_parse_build_gpt : forall S l,
@@ -69,7 +70,7 @@ Print Assumptions C12_parse_build_gpt.
 (* a protective MBR defers to the GPT: the GPT mapping is returned, and the MBR
    parser on the same image refuses the protective MBR *)
 Theorem C12_protective_defers : forall S l size,
-  sector_ok S -> wf_gpt l = true -> gl_pmbr l = Some size ->
+  sector_ok S -> wf_gpt l = true -> size < 4294967296 -> gl_sector0 l = protective_sector size ->
   let img := build S (GPTLayout l) in
   (exists g, partitions img S = Ok (TabGPT g) /\
              tab_keys (TabGPT g) = Ok (map fst (gpt_defined l))) /\
@@ -151,7 +152,7 @@ Definition ex_gpt : gpt_layout :=
                     Some (ex_entry 20 7 7 [])];
      gl_table_lba := 3; gl_disk_guid := repeat 9 16; gl_table_crc := 0;
      gl_backup_lba := 30; gl_first_usable := 6; gl_last_usable := 20;
-     gl_pmbr := Some 100; gl_tail := 0 |}.
+     gl_sector0 := protective_sector 100; gl_tail := 0 |}.
 
 Definition summary (r : res ptable) : res (list N) * list (res (N * N * ptype * list N)) :=
   match r with
